@@ -35,6 +35,11 @@ theorem tie_createSecureFile :
 
 theorem tie_saveShape : Gen.saveSecureCreator = "fs.CreateSecureFile" ∧ Gen.savePlainCreator = "os.Create" := by decide
 
+/-- `key.Save` applies its creator either to the target itself, or to `<target>.tmp` which it then renames over the
+target (the extractor refuses any other shape); the model's `codeSaveProtocol` follows `Gen.saveRenamesOverTarget` -/
+theorem tie_saveTarget :
+    Gen.saveWritesTo = (if Gen.saveRenamesOverTarget then "filePath+tmpExtension" else "filePath") := by decide
+
 theorem tie_saveCallSites : Gen.saveCallSites = [
     ("common/key:fileStore.SaveKeyPair", "f.privateKeyFile", "common/key:Pair.TOML", true),
     ("common/key:fileStore.SaveKeyPair", "f.publicKeyFile", "common/key:Identity.TOML", false),
@@ -172,6 +177,74 @@ theorem c15_secure_save_final_mode (umask : Nat) (st₀ : FileSt) (data : Bytes)
   rw [hsteps]
   cases hp : st₀.present <;> simp [trace, execStep, hp, modeAfter, tie_rwFilePermission]
 
+/-! #### the variant that writes a temporary file and renames it (`Gen.saveRenamesOverTarget = true`) -/
+
+/-- `key.Save(path, t, secure = true)`, rename variant: the TEMPORARY file holds the secret too. At no point of
+create(tmp), close, chmod 0600, reopen, write, rename does EITHER file have content while being accessible to group or
+other — whatever the umask, and whatever a stale temporary file of an earlier interrupted Save looked like (any mode,
+any content) — provided the previous version of the target, if it holds anything, was owner-only. -/
+theorem c15_secure_save_atomic_never_exposes (umask : Nat) (st₀ : SaveSt) (data : Bytes) (h0 : st₀.target.tight) :
+    ∀ st ∈ traceS umask st₀ (saveProtocol true true data), st.target.tight ∧ st.tmp.tight := by
+  intro st hst
+  have hsteps : saveProtocol true true data =
+      [.onTmp .create, .onTmp .close, .onTmp (.chmod 0o600), .onTmp .openRW, .onTmp (.write data), .renameTmp] := by
+    simp [saveProtocol, saveSteps, tie_createSecureFile.2]
+  rw [hsteps] at hst
+  obtain ⟨tg, ⟨present, mode, content⟩⟩ := st₀
+  cases present <;>
+    simp only [traceS, execS, execStep, List.mem_cons, List.not_mem_nil, or_false, Bool.false_eq_true, if_false, if_true] at hst <;>
+    rcases hst with h | h | h | h | h | h <;> subst h <;>
+    first
+    | exact ⟨h0, fun hne => absurd rfl hne⟩
+    | exact ⟨h0, fun _ => (by decide : ownerOnly 384)⟩
+    | exact ⟨fun _ => (by decide : ownerOnly 384), fun hne => absurd rfl hne⟩
+
+/-- … and afterwards the target is the new content with mode `rwFilePermission`, the temporary file is gone -/
+theorem c15_secure_save_atomic_final (umask : Nat) (st₀ : SaveSt) (data : Bytes) :
+    (traceS umask st₀ (saveProtocol true true data)).getLast? = some ⟨⟨true, modeAfter .secureFile umask, data⟩, noFile⟩ := by
+  have hsteps : saveProtocol true true data =
+      [.onTmp .create, .onTmp .close, .onTmp (.chmod 0o600), .onTmp .openRW, .onTmp (.write data), .renameTmp] := by
+    simp [saveProtocol, saveSteps, tie_createSecureFile.2]
+  rw [hsteps]
+  obtain ⟨tg, ⟨present, mode, content⟩⟩ := st₀
+  cases present <;> simp [traceS, execS, execStep, modeAfter, tie_rwFilePermission]
+
+/-- rename variant, plain path: the target gets the mode of the temporary file — `0666 &^ umask` (or the mode of a stale
+temporary file that was still lying around), no longer the mode the previous version of the target had -/
+theorem c15_plain_save_atomic_mode (umask : Nat) (st₀ : SaveSt) (data : Bytes) :
+    (traceS umask st₀ (saveProtocol true false data)).getLast? =
+      some ⟨⟨true, if st₀.tmp.present then st₀.tmp.mode else 0o666 &&& notMask umask, data⟩, noFile⟩ := by
+  obtain ⟨tg, ⟨present, mode, content⟩⟩ := st₀
+  cases present <;> simp [saveProtocol, saveSteps, traceS, execS, execStep]
+
+/-- in-place variant on the same two-file state: the secure save never exposes the file it writes, the sibling is not
+touched -/
+theorem c15_secure_save_inplace_never_exposes (umask : Nat) (st₀ : SaveSt) (data : Bytes) (h1 : st₀.tmp.tight) :
+    ∀ st ∈ traceS umask st₀ (saveProtocol false true data), st.target.tight ∧ st.tmp.tight := by
+  intro st hst
+  have hsteps : saveProtocol false true data =
+      [.onTarget .create, .onTarget .close, .onTarget (.chmod 0o600), .onTarget .openRW, .onTarget (.write data)] := by
+    simp [saveProtocol, saveSteps, tie_createSecureFile.2]
+  rw [hsteps] at hst
+  obtain ⟨⟨present, mode, content⟩, tm⟩ := st₀
+  cases present <;>
+    simp only [traceS, execS, execStep, List.mem_cons, List.not_mem_nil, or_false, Bool.false_eq_true, if_false, if_true] at hst <;>
+    rcases hst with h | h | h | h | h <;> subst h <;>
+    first
+    | exact ⟨fun hne => absurd rfl hne, h1⟩
+    | exact ⟨fun _ => (by decide : ownerOnly 384), h1⟩
+
+/-- what holds for `key.Save(…, secure = true)` of the tree under test, whichever of the two variants it is: starting
+from files that are tight (hold nothing, or are owner-only), every file that ever holds the share or the private key
+during the Save — the temporary file included — is owner-only at that moment -/
+theorem c15_secure_save_code_never_exposes (umask : Nat) (st₀ : SaveSt) (data : Bytes)
+    (h0 : st₀.target.tight) (h1 : st₀.tmp.tight) :
+    ∀ st ∈ traceS umask st₀ (codeSaveProtocol true data), st.target.tight ∧ st.tmp.tight := by
+  unfold codeSaveProtocol
+  cases Gen.saveRenamesOverTarget
+  · exact c15_secure_save_inplace_never_exposes umask st₀ data h1
+  · exact c15_secure_save_atomic_never_exposes umask st₀ data h0
+
 /-- why `secure` matters: the plain path leaves a fresh file world-readable under umask 0 … -/
 theorem c15_plain_save_exposes :
     ∃ st ∈ trace 0 ⟨false, 0, []⟩ (saveSteps false [1]), st.content = [1] ∧ ¬ ownerOnly st.mode := by
@@ -280,5 +353,12 @@ example : (findChan "grpc:/drand.Control/PublicKey:resp").map (·.kind) = some .
     (findChan "grpc:/drand.Protocol/PartialBeacon:req").map (·.kind) = some .sign ∧ (findChan "nope").isNone := by decide
 example : Gen.secretReaders.length = 21 ∧ "crypto/vault:Vault.SignPartial" ∈ Gen.secretReaders := by decide
 example : (trace 0o022 ⟨false, 0, []⟩ (saveSteps true [9])).map (·.mode) = [0o644, 0o644, 0o600, 0o600, 0o600] := by decide
+-- rename variant over an owner-only old share, with a stale WORLD-READABLE temporary file full of old bytes lying around:
+-- the stale file is emptied before it is chmod'ed and written, the target is replaced in one step
+example : (traceS 0o022 ⟨⟨true, 0o600, [1]⟩, ⟨true, 0o666, [7, 7]⟩⟩ (saveProtocol true true [9])).map
+      (fun st => (st.target.mode, st.target.content, st.tmp.present, st.tmp.mode, st.tmp.content)) =
+    [(0o600, [1], true, 0o666, []), (0o600, [1], true, 0o666, []), (0o600, [1], true, 0o600, []), (0o600, [1], true, 0o600, []),
+     (0o600, [1], true, 0o600, [9]), (0o600, [9], false, 0, [])] := by decide
+example : FileSt.tight ⟨true, 0o600, [1]⟩ ∧ ¬ FileSt.tight ⟨true, 0o644, [1]⟩ ∧ FileSt.tight ⟨true, 0o666, []⟩ := by decide
 
 end Drand.Secrecy
